@@ -154,6 +154,10 @@ func BytesEq(a, b []byte) bool { return string(a) == string(b) }
 
 func Implies(a, b bool) bool { return !a || b }
 
+// And / Or build the formula without branching (no path fork under the engine).
+func And(a, b bool) bool { return a && b }
+func Or(a, b bool) bool  { return a || b }
+
 // RunReplay is called by the generated TestZZReplay of each harness package.
 func RunReplay(t *testing.T) {
 	load()
